@@ -98,7 +98,8 @@ def gen_specs(rng, cfg, rates, tag):
         nwin = int(rng.integers(2, 4))
         per = int(round(cfg["wl"] * fs))
         tail = int(rng.integers(0, int(0.3 * per))) if rng.random() < 0.5 else 0
-        specs.append(dict(stem=f"{tag}{i}_{fs}hz", fs=int(fs), nsamp=nwin * per + 1 + tail, seed=int(rng.integers(0, 2**31))))
+        # station-style names with dots in the stem (net.sta.loc.mseed) for every other file: the stem is the name without its LAST extension
+        specs.append(dict(stem=(f"{tag}{i}_{fs}hz" if i % 2 == 0 else f"{tag}.st{i}.{fs}hz"), fs=int(fs), nsamp=nwin * per + 1 + tail, seed=int(rng.integers(0, 2**31))))
     return specs
 
 
